@@ -366,6 +366,10 @@ func main() {
 		}
 	}
 	uniq = attributePairs(uniq, known)
+	maxPrint := 25
+	if os.Getenv("VERIF_PRINT_ALL") != "" {
+		maxPrint = 1 << 30
+	}
 	exit := 0
 	var knownSeen, pinned []string
 	nviol := 0
@@ -375,13 +379,13 @@ func main() {
 			pinned = append(pinned, v.Signature+": "+v.Detail)
 			continue
 		}
-		if d, ok := known[v.Signature]; ok {
+		if d, ok := matchKnown(known, v.Signature); ok {
 			fmt.Printf("KNOWN-FINDING: property=%s %s -- %s\n", prop, v.Signature, d)
 			knownSeen = append(knownSeen, v.Signature)
 			continue
 		}
 		nviol++
-		if nviol > 25 {
+		if nviol > maxPrint {
 			exit = 1
 			continue
 		}
@@ -395,8 +399,8 @@ func main() {
 		exit = 1
 	}
 
-	if nviol > 25 {
-		fmt.Printf("... and %d more violation signatures (not written out)\n", nviol-25)
+	if nviol > maxPrint {
+		fmt.Printf("... and %d more violation signatures (not written out)\n", nviol-maxPrint)
 	}
 
 	// 6. evidence
@@ -534,4 +538,20 @@ func attributePairs(vs []violation, known map[string]string) []violation {
 		out = append(out, v)
 	}
 	return out
+}
+
+// matchKnown looks a signature up in the known findings; an entry may use * as a wildcard inside a
+// position (used only for families documented in DESIGN.md).
+func matchKnown(known map[string]string, sig string) (string, bool) {
+	if d, ok := known[sig]; ok {
+		return d, true
+	}
+	for pat, d := range known {
+		if strings.Contains(pat, "*") {
+			if ok, _ := filepath.Match(strings.ReplaceAll(pat, "/", "\x01"), strings.ReplaceAll(sig, "/", "\x01")); ok {
+				return d, true
+			}
+		}
+	}
+	return "", false
 }
